@@ -5,6 +5,7 @@ import (
 	"encoding/json"
 	"fmt"
 	"os"
+	"runtime/pprof"
 	"strings"
 
 	"verifh/mc"
@@ -42,6 +43,16 @@ func main() {
 		if ch == nil {
 			fmt.Println("unknown check", id)
 			os.Exit(2)
+		}
+		if pf := os.Getenv("VERIF_CPUPROFILE"); pf != "" {
+			// debugging aid: CPU profile of the run
+			if f, err := os.Create(pf); err == nil {
+				pprof.StartCPUProfile(f) //nolint:errcheck
+				rc := mc.RunCheck(ch, tier)
+				pprof.StopCPUProfile()
+				f.Close()
+				os.Exit(rc)
+			}
 		}
 		os.Exit(mc.RunCheck(ch, tier))
 	case "note":
